@@ -14,6 +14,7 @@ mod rules;
 mod shrink;
 mod simclock;
 mod simenv;
+mod simio;
 mod surface;
 mod trace;
 
@@ -158,6 +159,7 @@ fn worker(prop: &'static str, thorough: bool, seed: u64, first_run: u64, runs: u
         gen::pick_env_mode(&mut trace, &mut lane1);
         gen::add_marathon(&mut trace, &mut lane1, &preset, &mut gstats);
         gen::add_liars(&mut trace, &mut lane1, &mut gstats);
+        gen::pick_stdio(&mut trace, &mut lane1, &mut gstats);
         let res = Exec::run(&trace);
         out.probes.add(&gstats);
         out.probes.add(&res.probes);
@@ -287,6 +289,9 @@ fn shape(t: &Trace) -> String {
     if t.env_mode != 0 {
         s.push_str(" env");
     }
+    if t.stdio_fails {
+        s.push_str(" stdio-fails");
+    }
     for e in t.events.iter() {
         s.push(' ');
         match e {
@@ -326,6 +331,7 @@ fn shape(t: &Trace) -> String {
             Ev::Restore => s.push_str("restore"),
             Ev::Hop { .. } => s.push_str("hop"),
             Ev::Unwinding { .. } => s.push_str("unwinding"),
+            Ev::Misplaced { .. } => s.push_str("misplaced"),
             Ev::Liar { .. } => s.push_str("liar"),
             Ev::FeedAbort { .. } => s.push_str("abort"),
             Ev::Bulk { .. } => s.push_str("bulk"),
@@ -403,6 +409,7 @@ fn cmd_gen(a: &Args) -> i32 {
     gen::pick_env_mode(&mut trace, &mut lane1);
     gen::add_marathon(&mut trace, &mut lane1, &preset, &mut st);
     gen::add_liars(&mut trace, &mut lane1, &mut st);
+    gen::pick_stdio(&mut trace, &mut lane1, &mut st);
     let res = Exec::run(&trace);
     println!("{}", J::obj().set("knobs", cfg.to_json()).set("trace", trace.to_json()).pretty());
     for v in res.violations.iter() {
@@ -715,7 +722,7 @@ fn evidence_json(
     }
     cov.put("simulated_time_ns_finite_part", J::Str(p.sim_time_ns.to_string()));
     cov.put("infinite_clock_jumps", J::u(p.infinite_jumps));
-    cov.put("events", J::obj().set("deliveries", J::u(p.deliveries)).set("polls", J::u(p.polls)).set("resets", J::u(p.resets)).set("clock_advances", J::u(p.advances)).set("forks", J::u(p.forks)).set("snapshots", J::u(p.snapshots)).set("restores", J::u(p.restores)).set("bare_resets_inside_reset_storms", J::u(p.reset_storm_resets)).set("soak_loops", J::u(p.soak_loops)).set("steps_inside_soak_loops", J::u(p.soak_steps)).set("scanner_debug_dumps", J::u(p.scanner_debug_dumps)).set("reported_message_debug_and_hash_checks", J::u(p.message_debug_hash_checks)).set("reported_message_hash_mismatch", J::u(p.message_hash_mismatch)).set("marathons", J::u(p.bulk_events)).set("marathon_rounds_on_the_fast_path", J::u(p.bulk_fast_rounds)).set("marathon_feeds_on_the_fast_path_per_instance", J::u(p.bulk_fast_feeds)).set("marathons_of_at_least_65536_rounds", J::u(p.bulk_rounds_max_2pow16)).set("marathons_of_at_least_2pow20_rounds", J::u(p.bulk_rounds_max_2pow20)).set("marathons_of_at_least_2pow24_rounds", J::u(p.bulk_rounds_max_2pow24)).set("aborted_feeds", J::u(p.aborted_feeds)).set("aborted_feed_calls_that_unwound", J::u(p.aborted_feed_calls_unwound)).set("aborted_feed_calls_that_completed_and_were_rolled_back", J::u(p.aborted_feed_calls_completed_and_rolled_back)).set("unwinding_windows", J::u(p.unwinding_windows)).set("calls_on_the_main_instance_made_from_a_destructor_during_unwinding", J::u(p.calls_from_an_unwinding_destructor)).set("self_contradicting_messages_fed", J::u(p.liar_feeds)).set("events_not_judged_between_such_a_message_and_the_next_reset_or_restore", J::u(p.events_not_judged_after_a_liar)).set("resets_judged_after_such_a_message", J::u(p.resets_judged_after_a_liar)).set("thread_hop_windows", J::u(p.thread_hop_windows)).set("calls_on_the_main_instance_executed_on_another_os_thread", J::u(p.calls_on_another_thread)).set("enc_cc14", J::u(p.enc_cc14)).set("enc_pn", J::u(p.enc_pn)).set("ingest_rejected", J::u(p.ingest_rejected)).set("ingest_mismatch", J::u(p.ingest_mismatch)).set("factory_rebuild_mismatch", J::u(p.factory_rebuild_mismatch)).set("accessor_mismatch", J::u(p.accessor_mismatch)).set("telemetry_mismatch", J::u(p.telemetry_mismatch)).set("garbled_text_parses_ok_plus_calls", J::u(p.garbled_parses)));
+    cov.put("events", J::obj().set("deliveries", J::u(p.deliveries)).set("polls", J::u(p.polls)).set("resets", J::u(p.resets)).set("clock_advances", J::u(p.advances)).set("forks", J::u(p.forks)).set("snapshots", J::u(p.snapshots)).set("restores", J::u(p.restores)).set("bare_resets_inside_reset_storms", J::u(p.reset_storm_resets)).set("soak_loops", J::u(p.soak_loops)).set("steps_inside_soak_loops", J::u(p.soak_steps)).set("scanner_debug_dumps", J::u(p.scanner_debug_dumps)).set("reported_message_debug_and_hash_checks", J::u(p.message_debug_hash_checks)).set("reported_message_hash_mismatch", J::u(p.message_hash_mismatch)).set("marathons", J::u(p.bulk_events)).set("marathon_rounds_on_the_fast_path", J::u(p.bulk_fast_rounds)).set("marathon_feeds_on_the_fast_path_per_instance", J::u(p.bulk_fast_feeds)).set("marathons_of_at_least_65536_rounds", J::u(p.bulk_rounds_max_2pow16)).set("marathons_of_at_least_2pow20_rounds", J::u(p.bulk_rounds_max_2pow20)).set("marathons_of_at_least_2pow24_rounds", J::u(p.bulk_rounds_max_2pow24)).set("aborted_feeds", J::u(p.aborted_feeds)).set("aborted_feed_calls_that_unwound", J::u(p.aborted_feed_calls_unwound)).set("aborted_feed_calls_that_completed_and_were_rolled_back", J::u(p.aborted_feed_calls_completed_and_rolled_back)).set("unwinding_windows", J::u(p.unwinding_windows)).set("calls_on_the_main_instance_made_from_a_destructor_during_unwinding", J::u(p.calls_from_an_unwinding_destructor)).set("self_contradicting_messages_fed", J::u(p.liar_feeds)).set("events_not_judged_between_such_a_message_and_the_next_reset_or_restore", J::u(p.events_not_judged_after_a_liar)).set("resets_judged_after_such_a_message", J::u(p.resets_judged_after_a_liar)).set("misplaced_windows", J::u(p.misplaced_windows)).set("calls_on_the_main_instance_made_on_a_copy_at_an_odd_address", J::u(p.calls_on_a_misplaced_copy)).set("thread_hop_windows", J::u(p.thread_hop_windows)).set("calls_on_the_main_instance_executed_on_another_os_thread", J::u(p.calls_on_another_thread)).set("enc_cc14", J::u(p.enc_cc14)).set("enc_pn", J::u(p.enc_pn)).set("ingest_rejected", J::u(p.ingest_rejected)).set("ingest_mismatch", J::u(p.ingest_mismatch)).set("factory_rebuild_mismatch", J::u(p.factory_rebuild_mismatch)).set("accessor_mismatch", J::u(p.accessor_mismatch)).set("telemetry_mismatch", J::u(p.telemetry_mismatch)).set("garbled_text_parses_ok_plus_calls", J::u(p.garbled_parses)));
     cov.put("reports", J::obj().set("cc14", J::u(p.reports_cc14)).set("pn", J::u(p.reports_pn)).set("polling_feed", J::u(p.reports_polling_feed)).set("polling_poll", J::u(p.reports_polling_poll)));
     let mut ff = J::obj();
     let mut fl = J::obj();
@@ -791,6 +798,8 @@ fn evidence_json(
     cov.put("hook_clock_reads", J::u(p.clock_reads));
     cov.put("clock_reads_bypassing_the_hook_answered_by_the_interposed_clock_gettime", J::u(p.direct_clock_reads));
     cov.put("environment_lookups_inside_api_regions_answered_by_the_interposed_getenv", J::u(p.env_reads));
+    cov.put("writes_to_stdout_or_stderr_from_inside_api_regions_answered_by_the_interposed_write", J::u(p.stdio_writes_inside_api_regions));
+    cov.put("runs_in_which_such_writes_would_fail_with_EIO", J::u(p.stdio_mode_runs[1]));
     cov.put("runs_per_environment_mode", J::obj().set(crate::simenv::MODE_NAMES[0], J::u(p.env_mode_runs[0])).set(crate::simenv::MODE_NAMES[1], J::u(p.env_mode_runs[1])).set(crate::simenv::MODE_NAMES[2], J::u(p.env_mode_runs[2])).set(crate::simenv::MODE_NAMES[3], J::u(p.env_mode_runs[3])));
     cov.put("time_passing_inside_calls", J::obj().set("runs_with_a_clock_read_step", J::u(p.faults_fired[gen::F_CLOCK_TICK])).set("steps_during_which_the_clock_moved", J::u(p.calls_during_which_time_passed)).set("polls_whose_deadline_fell_inside_the_call", J::u(p.polls_straddling_deadline)));
     let mut ac = J::obj();
